@@ -596,7 +596,7 @@ func coqParCase(sc scenario, o parObs) string {
 // ---------------------------------------------------------------------------------------------------------------
 // cancel-function store
 
-// number of functions registered by one call: "R" one, "Rk" k (the API is variadic)
+// number of functions registered by one call: "R" one, "Rk"/"Vk"/"Wk" k (the API is variadic)
 func regCount(op string) int {
 	if op == "R" {
 		return 1
@@ -604,25 +604,69 @@ func regCount(op string) int {
 	return int(op[1] - '0')
 }
 
-// sequential program on one goroutine: exact result of every call
+func isReg(op string) bool { return op[0] == 'R' || op[0] == 'V' || op[0] == 'W' }
+
+const ghostBase = 1000 // identifiers of functions that are never registered (the caller only writes them into ITS slice)
+
+// sequential program on one goroutine: exact result of every call.
+//
+//	R, Rk : Register(k functions) from a fresh slice that is not touched again
+//	Vk    : Register(buf...) from the caller's scratch buffer (capacity 8, reset and refilled by every Vk: reuse across batches)
+//	Wk    : Register(w...) from a fresh caller-owned slice with spare capacity
+//	Mg/Mz/Ma : afterwards the caller overwrites the slice it passed last (whole capacity) with never-registered
+//	        functions / clears it to nil / appends a never-registered function to it
+//
+// Functions are identified by id, not by slot: every registered id must be invoked by a later Cancel, no other id may be.
 func runStoreSeq(sc scenario) (outs [][]int, susp []suspect) {
 	store := parallelisation.NewCancelFunctionsStore()
 	next := 0
+	ghosts := 0
 	var invoked []int
-	var registered []int
+	registered := map[int]bool{}
+	var order []int
+	mk := func(id int) context.CancelFunc { return func() { invoked = append(invoked, id) } }
+	ghost := func() context.CancelFunc { ghosts++; return mk(ghostBase + ghosts) }
+	buf := make([]context.CancelFunc, 0, 8)
+	var last []context.CancelFunc
 	for _, op := range sc.Prog {
-		switch op {
-		case "R", "R0", "R2", "R3":
+		switch {
+		case isReg(op):
 			var fs []context.CancelFunc
+			switch op[0] {
+			case 'V':
+				buf = buf[:0]
+				fs = buf
+			case 'W':
+				fs = make([]context.CancelFunc, 0, regCount(op)+4)
+			}
 			for k := regCount(op); k > 0; k-- {
 				id := next
 				next++
-				fs = append(fs, func() { invoked = append(invoked, id) })
-				registered = append(registered, id)
+				fs = append(fs, mk(id))
+				registered[id] = true
+				order = append(order, id)
 			}
 			store.RegisterCancelFunction(fs...)
+			if op[0] != 'R' {
+				last = fs
+			}
 			outs = append(outs, []int{})
-		case "C":
+		case op == "Mg":
+			for i := range last[:cap(last)] {
+				last[:cap(last)][i] = ghost()
+			}
+			outs = append(outs, []int{})
+		case op == "Mz":
+			for i := range last {
+				last[i] = nil
+			}
+			outs = append(outs, []int{})
+		case op == "Ma":
+			if last != nil {
+				last = append(last, ghost())
+			}
+			outs = append(outs, []int{})
+		case op == "C":
 			invoked = nil
 			store.Cancel()
 			got := append([]int{}, invoked...)
@@ -631,14 +675,18 @@ func runStoreSeq(sc scenario) (outs [][]int, susp []suspect) {
 			seen := map[int]int{}
 			for _, f := range got {
 				seen[f]++
-			}
-			for _, f := range registered {
-				if seen[f] == 0 {
-					susp = append(susp, suspect{"cancel-misses-registered:sequential", fmt.Sprintf("Cancel() did not invoke function %d registered before it (program %v)", f, sc.Prog), true})
-					break
+				if !registered[f] {
+					susp = append(susp, suspect{"cancel-invokes-unregistered:sequential", fmt.Sprintf("Cancel() invoked function %d which was never registered (the caller only wrote it into its own slice after Register returned; program %v)", f, sc.Prog), true})
+					return
 				}
 			}
-		case "L":
+			for _, f := range order {
+				if seen[f] == 0 {
+					susp = append(susp, suspect{"cancel-misses-registered:sequential", fmt.Sprintf("Cancel() did not invoke function %d registered before it (program %v)", f, sc.Prog), true})
+					return
+				}
+			}
+		case op == "L":
 			outs = append(outs, []int{store.Len()})
 		}
 	}
@@ -649,17 +697,19 @@ func coqStoreCase(sc scenario, outs [][]int) string {
 	ops := make([]string, len(sc.Prog))
 	next := 0
 	for i, op := range sc.Prog {
-		switch op {
-		case "R", "R0", "R2", "R3":
+		switch {
+		case isReg(op):
 			var ids []string
 			for k := regCount(op); k > 0; k-- {
 				ids = append(ids, h.Nat(next))
 				next++
 			}
-			ops[i] = "SReg " + h.List(ids)
-		case "C":
+			ops[i] = "(SReg " + h.List(ids) + ")"
+		case op[0] == 'M':
+			ops[i] = "SScribble"
+		case op == "C":
 			ops[i] = "SCancel"
-		case "L":
+		case op == "L":
 			ops[i] = "SLen"
 		}
 	}
@@ -694,6 +744,7 @@ func runStoreStorm(sc scenario) (susp []suspect, nCancels, nFns int) {
 	var fns []*fnRec
 	var cancels []*cancelRec
 	var nextID atomic.Int64
+	var ghostCalls atomic.Int64 // invocations of functions that were never registered
 	var wg sync.WaitGroup
 	start := make(chan struct{})
 	for ti, prog := range sc.Threads {
@@ -701,12 +752,17 @@ func runStoreStorm(sc scenario) (susp []suspect, nCancels, nFns int) {
 		go func(ti int, prog []string) {
 			defer wg.Done()
 			gid := goid.Get()
+			scratch := make([]context.CancelFunc, 0, 6)
 			<-start
 			for _, op := range prog {
 				switch op {
-				case "R", "R2":
+				case "R", "R2", "V1", "V2", "V3":
 					var recs []*fnRec
 					var fs []context.CancelFunc
+					if op[0] == 'V' { // the goroutine's scratch buffer, reset and refilled for every batch
+						scratch = scratch[:0]
+						fs = scratch
+					}
 					for k := regCount(op); k > 0; k-- {
 						f := &fnRec{id: int(nextID.Add(1))}
 						recs = append(recs, f)
@@ -719,6 +775,11 @@ func runStoreStorm(sc scenario) (susp []suspect, nCancels, nFns int) {
 					b := tick.Add(1)
 					store.RegisterCancelFunction(fs...)
 					e := tick.Add(1)
+					if op[0] == 'V' { // Register has returned: the caller's slice is the caller's again
+						for i := range fs[:cap(fs)] {
+							fs[:cap(fs)][i] = func() { ghostCalls.Add(1) }
+						}
+					}
 					mu.Lock()
 					for _, f := range recs {
 						f.regBegin, f.regDone = b, e
@@ -758,6 +819,10 @@ func runStoreStorm(sc scenario) (susp []suspect, nCancels, nFns int) {
 				return susp, len(cancels), len(fns)
 			}
 		}
+	}
+	if g := ghostCalls.Load(); g > 0 {
+		susp = append(susp, suspect{"cancel-invokes-unregistered:concurrent", fmt.Sprintf("Cancel() invoked %d time(s) a function that was never registered (written by a caller into its own slice after Register had returned)", g), true})
+		return susp, len(cancels), len(fns)
 	}
 	if l := store.Len(); l != len(fns) {
 		susp = append(susp, suspect{"store-len-after-storm", fmt.Sprintf("Len() = %d after %d registrations", l, len(fns)), true})
@@ -1064,7 +1129,7 @@ func main() {
 	r.Imports = []string{"GU.C12.Model"}
 	r.Rule("runner scenarios: 3 runners x outcome (nil/err) x action watches its signal or not x completion instant (classes far before / far after the deadline, " +
 		"parent ended before / event during the call, and the sweep deadline-2ms..deadline+2ms under busy goroutines); Parallelise: argument counts 0..64 x failure patterns x delays; " +
-		"store: sequential programs and concurrent Register/Cancel/Len storms. Non-trivial = a sweep point (distinct by runner, outcome, mode, offset to the deadline, busy level), " +
+		"store: sequential programs and concurrent Register/Cancel/Len storms, with variadic registrations of 0..4 functions from caller-owned slices (scratch buffer reused across batches, spare capacity) that the caller overwrites / clears / appends to after the call, functions identified by id. Non-trivial = a sweep point (distinct by runner, outcome, mode, offset to the deadline, busy level), " +
 		"a Parallelise scenario with >1 argument, a store program with >2 calls, a storm")
 	d := &driver{r: r, emitted: map[string]int{}, skip: map[string]bool{}}
 	baseline0 := runtime.NumGoroutine()
@@ -1194,12 +1259,16 @@ func main() {
 
 	// ---- 4. cancel-function store
 	seqs := [][]string{{}, {"C"}, {"L"}, {"R", "C"}, {"R", "R", "R", "L", "C", "C", "L"}, {"C", "R", "C", "R", "C", "L"}, {"R", "L", "R", "L", "C"},
-		{"R2", "L", "C"}, {"R0", "L", "C", "R3", "L", "C"}, {"R", "R2", "R0", "R3", "C", "L"}}
-	for i := 0; i < r.N(60, 1000); i++ {
+		{"R2", "L", "C"}, {"R0", "L", "C", "R3", "L", "C"}, {"R", "R2", "R0", "R3", "C", "L"},
+		// caller-owned slices written to after Register returned (first registration, later ones, before/after further registrations)
+		{"V2", "Mg", "C"}, {"V3", "Mz", "C", "L"}, {"V2", "V3", "C", "L"}, {"V3", "V1", "C"}, {"W2", "Ma", "R", "C"}, {"W2", "R", "Ma", "C"},
+		{"V0", "V2", "Mg", "C"}, {"R", "V2", "Mg", "C"}, {"V1", "R2", "Mg", "C", "Mz", "C"}, {"W3", "R", "Ma", "Mg", "C", "L"},
+		{"V4", "C", "V4", "C", "Mz", "C"}, {"W1", "Ma", "Ma", "R3", "Mg", "C", "L"}, {"V2", "R", "V2", "R", "V2", "C", "L"}}
+	for i := 0; i < r.N(200, 2000); i++ {
 		n := 1 + r.Rng.Intn(12)
 		p := make([]string, n)
 		for j := range p {
-			p[j] = []string{"R", "R", "C", "L", "R2", "R0", "R3", "C"}[r.Rng.Intn(8)]
+			p[j] = []string{"R", "C", "L", "R2", "R0", "R3", "C", "V0", "V1", "V2", "V3", "V4", "W1", "W2", "W3", "Mg", "Mz", "Ma", "Mg", "C"}[r.Rng.Intn(20)]
 		}
 		seqs = append(seqs, p)
 	}
@@ -1211,7 +1280,7 @@ func main() {
 	for i := 0; i < r.N(30, 400); i++ {
 		g := 2 + r.Rng.Intn(15)
 		k := 5 + r.Rng.Intn(60)
-		mix := [][]string{{"R", "C", "L"}, {"R", "R2", "R", "C"}, {"R", "R2"}, {"R", "C"}}[r.Rng.Intn(4)]
+		mix := [][]string{{"R", "C", "L"}, {"R", "R2", "R", "C"}, {"R", "R2"}, {"R", "C"}, {"V1", "V2", "V3", "C"}, {"V2", "V3"}, {"V3", "R", "C", "L"}}[r.Rng.Intn(7)]
 		sc := scenario{Kind: "store-storm"}
 		for t := 0; t < g; t++ {
 			p := make([]string, k)
